@@ -15,7 +15,7 @@ Proof.
 Qed.
 
 Lemma world_child es sid p r : wf es = true -> after_spawn sid es = Some (p, r) ->
-  let c := fold_left (cstep sid) r (cinit p) in
+  let c := trk sid (run (spawn_prefix sid es)) r (cinit p) in
   R (run es) sid c /\ Inv sid p r c.
 Proof.
   intros W A. destruct (projection es W) as [_ [_ T]]. specialize (T sid). unfold track in T. rewrite A in T.
@@ -48,8 +48,8 @@ Theorem at_most_once es sid p r : wf es = true -> after_spawn sid es = Some (p, 
   exists sb, nth_error (w_subs (run es)) sid = Some sb /\ s_pid sb = p /\
              child_report sid p r (calls_of sid (w_log (run es))) (w_queue (run es)) sb.
 Proof.
-  intros W A. destruct (world_child es sid p r W A) as [[[Hs Hk Hw Hc Hi] Hq] [I1 I2 I3 [dr I5] I4]].
-  set (c := fold_left (cstep sid) r (cinit p)) in *.
+  intros W A. destruct (world_child es sid p r W A) as [[[Hs Hk Hw Hc] Hq] [I1 I2 I3 [dr I5] I4]].
+  set (c := trk sid (run (spawn_prefix sid es)) r (cinit p)) in *.
   assert (LL : late_labels sid (w_queue (run es)) = map (fun x => cb_label (fst x)) (c_late c)).
   { rewrite <- late_labels_filter, Hq. apply late_labels_q_of. }
   exists (c_sub c). split; [exact Hs|]. split; [exact I1|]. rewrite Hc.
@@ -91,11 +91,11 @@ Proof.
 Qed.
 
 Lemma reported_world es sid p r st : wf es = true -> after_spawn sid es = Some (p, r) ->
-  reported st (fold_left (cstep sid) r (cinit p)) ->
+  reported st (trk sid (run (spawn_prefix sid es)) r (cinit p)) ->
   first_exit p r = Some st /\ exactly_once es sid r st.
 Proof.
-  intros W A Rp. destruct (world_child es sid p r W A) as [[[Hs Hk Hw Hc Hi] Hq] [I1 I2 I3 I5 I4]].
-  set (c := fold_left (cstep sid) r (cinit p)) in *. unfold reported in Rp.
+  intros W A Rp. destruct (world_child es sid p r W A) as [[[Hs Hk Hw Hc] Hq] [I1 I2 I3 I5 I4]].
+  set (c := trk sid (run (spawn_prefix sid es)) r (cinit p)) in *. unfold reported in Rp.
   unfold body in I4. rewrite Rp in I2, I4. simpl in I2. split; [symmetry; exact I2|].
   exists (c_sub c). split; [exact Hs|]. rewrite Hc.
   destruct (decode st) as [rc|].
@@ -103,18 +103,35 @@ Proof.
   - destruct I4 as [A1 [A2 A3]]. auto.
 Qed.
 
+Lemma spawn_prefix_split es0 p r : forall sid, count_spawns es0 = sid ->
+  spawn_prefix sid (es0 ++ ESpawn p :: r) = es0 ++ [ESpawn p].
+Proof.
+  induction es0 as [|a es0 IH]; intros sid H; simpl in *.
+  - subst sid. reflexivity.
+  - destruct a; try (f_equal; apply IH; exact H).
+    unfold count_spawns in H. simpl in H. subst sid. f_equal. apply IH. reflexivity.
+Qed.
+
+Lemma run_app a b : run (a ++ b) = fold_left step b (run a).
+Proof. unfold run. apply fold_left_app. Qed.
+
 (* (A) registration and exit in EITHER order (both somewhere in r1, interleaved with anything), then a
-       (possibly coalesced) SIGCHLD, then a loop turn; whatever happens afterwards (r4) *)
-Theorem exactly_once_A es0 p r1 r2 r3 r4 sid st :
-  let r := r1 ++ r2 ++ r3 ++ r4 in
+       (possibly coalesced) SIGCHLD delivered while the handler is installed, then a loop turn; whatever happens afterwards (r4) *)
+Theorem exactly_once_A es0 p r1 r3 r4 sid st :
+  let r := r1 ++ ESigchld :: r3 ++ r4 in
   let es := es0 ++ ESpawn p :: r in
   wf es = true -> count_spawns es0 = sid ->
-  first_exit p r1 = Some st -> (exists e, In e r1 /\ is_reg_of sid e) -> In ESigchld r2 -> In ELoop r3 ->
+  first_exit p r1 = Some st -> (exists e, In e r1 /\ is_reg_of sid e) ->
+  w_init (run (es0 ++ ESpawn p :: r1)) = true -> In ELoop r3 ->
   exactly_once es sid r st.
 Proof.
-  intros r es W C F Rg S L.
+  intros r es W C F Rg Hd L.
   assert (A : after_spawn sid es = Some (p, r)) by (apply after_spawn_split; exact C).
-  destruct (reported_world es sid p r st W A (spec_reported_A sid p r1 r2 r3 r4 st F Rg S L)) as [_ H]. exact H.
+  assert (Hd' : w_init (fold_left step r1 (run (es0 ++ [ESpawn p]))) = true).
+  { rewrite <- run_app, <- app_assoc. exact Hd. }
+  pose proof (spec_reported_A sid p (run (es0 ++ [ESpawn p])) r1 r3 r4 st F Rg Hd' L) as Rp.
+  rewrite <- (spawn_prefix_split es0 p r sid C) in Rp.
+  destruct (reported_world es sid p r st W A Rp) as [_ H]. exact H.
 Qed.
 
 (* (B) the child died (and its SIGCHLD, if any, went by) before the object was registered *)
@@ -127,7 +144,9 @@ Theorem exactly_once_B es0 p r1 r2 r3 r4 sid st :
 Proof.
   intros r es W C F Rg L.
   assert (A : after_spawn sid es = Some (p, r)) by (apply after_spawn_split; exact C).
-  destruct (reported_world es sid p r st W A (spec_reported_B sid p r1 r2 r3 r4 st F Rg L)) as [_ H]. exact H.
+  pose proof (spec_reported_B sid p (run (es0 ++ [ESpawn p])) r1 r2 r3 r4 st F Rg L) as Rp.
+  rewrite <- (spawn_prefix_split es0 p r sid C) in Rp.
+  destruct (reported_world es sid p r st W A Rp) as [_ H]. exact H.
 Qed.
 
 (* every future handed out by wait_for_exit is pending, or was resolved by the rule *)
@@ -191,10 +210,10 @@ Proof.
   rewrite nth_error_app1 by exact (nth_error_lt _ _ _ H). exact H.
 Qed.
 
-Lemma late_step sid p es c cb rc e : Inv sid p es c -> pend cb rc c \/ done sid cb rc c ->
-  (pend cb rc (cstep sid c e) \/ done sid cb rc (cstep sid c e)) /\
-  (done sid cb rc c -> done sid cb rc (cstep sid c e)) /\
-  (e = ELoop -> done sid cb rc (cstep sid c e)).
+Lemma late_step sid p es c cb rc e h : Inv sid p es c -> pend cb rc c \/ done sid cb rc c ->
+  (pend cb rc (cstep sid h c e) \/ done sid cb rc (cstep sid h c e)) /\
+  (done sid cb rc c -> done sid cb rc (cstep sid h c e)) /\
+  (e = ELoop -> done sid cb rc (cstep sid h c e)).
 Proof.
   intros Hc PD. destruct (rb_of_inv sid p es c cb rc Hc PD) as [st [P [Dc Rb]]].
   pose proof Rb as [A _].
@@ -205,13 +224,12 @@ Proof.
     split.
     - destruct PD as [X|[X Y]]; [left; apply in_or_app; left; exact X|right; split; [exact X|apply cb_done_app; exact Y]].
     - intros [X Y]. split; [exact X|apply cb_done_app; exact Y]. }
-  destruct e as [q|q st0| |s0 l|s0 l re|]; cbn [cstep].
-  - split; [exact PD|split; [auto|discriminate]].
+  destruct e as [q|q st0| |s0 l|s0 l re| | |]; cbn [cstep]; try (split; [exact PD|split; [auto|discriminate]]; fail).
   - assert (E : (if q =? s_pid (c_sub c) then match c_ph c with PhRun => mkC (c_sub c) (PhZombie st0) (c_inw c) (c_calls c) (c_late c) | _ => c end else c) = c).
     { destruct (q =? s_pid (c_sub c)); [|reflexivity]. rewrite P. reflexivity. }
     rewrite E. split; [exact PD|split; [auto|discriminate]].
-  - assert (E : (if c_inw c then ctry c else c) = c).
-    { destruct (c_inw c); [|reflexivity]. unfold ctry. rewrite P. reflexivity. }
+  - assert (E : (if h && c_inw c then ctry c else c) = c).
+    { destruct (h && c_inw c); [|reflexivity]. unfold ctry. rewrite P. reflexivity. }
     rewrite E. split; [exact PD|split; [auto|discriminate]].
   - destruct (Nat.eqb s0 sid); [|split; [exact PD|split; [auto|discriminate]]].
     destruct (Reg prep_plain (cb_plain l) []) as [X Y].
@@ -231,15 +249,15 @@ Proof.
     split; [right; exact D|split; intros _; exact D].
 Qed.
 
-Lemma late_fold sid p cb rc r : forall es c, Inv sid p es c -> pend cb rc c \/ done sid cb rc c ->
-  (pend cb rc (fold_left (cstep sid) r c) \/ done sid cb rc (fold_left (cstep sid) r c)) /\
-  (done sid cb rc c -> done sid cb rc (fold_left (cstep sid) r c)) /\
-  (In ELoop r -> done sid cb rc (fold_left (cstep sid) r c)).
+Lemma late_fold sid p cb rc r : forall es w c, Inv sid p es c -> pend cb rc c \/ done sid cb rc c ->
+  (pend cb rc (trk sid w r c) \/ done sid cb rc (trk sid w r c)) /\
+  (done sid cb rc c -> done sid cb rc (trk sid w r c)) /\
+  (In ELoop r -> done sid cb rc (trk sid w r c)).
 Proof.
-  induction r as [|e r IH]; intros es c Hc PD; cbn [fold_left].
+  induction r as [|e r IH]; intros es w c Hc PD.
   - split; [exact PD|split; [auto|intros []]].
-  - destruct (late_step sid p es c cb rc e Hc PD) as [X [Y Z]].
-    destruct (IH (es ++ [e]) (cstep sid c e) (Inv_step sid p es c e Hc) X) as [X' [Y' Z']].
+  - rewrite trk_cons. destruct (late_step sid p es c cb rc e (w_init w) Hc PD) as [X [Y Z]].
+    destruct (IH (es ++ [e]) (step w e) _ (Inv_step sid p es c e (w_init w) Hc) X) as [X' [Y' Z']].
     split; [exact X'|]. split; [intros D; apply Y', Y, D|].
     intros [E|H]; [apply Y', Z; exact E|exact (Z' H)].
 Qed.
@@ -254,27 +272,29 @@ Qed.
 (* A registration (set_exit_callback or wait_for_exit, label l) made after the object's exit was reported with a
    decodable status: at the next loop turn its callback runs with the decoded status, its future (if any) is resolved
    by the rule, and this remains so whatever happens later. *)
-Theorem late_registration_fires es1 e r2 r3 sid p r1 st rc l :
+Theorem late_registration_fires es1 e r2 r3 sid c1 st rc l :
   let es := es1 ++ e :: r2 ++ r3 in
-  wf es = true -> after_spawn sid es1 = Some (p, r1) ->
-  reported st (fold_left (cstep sid) r1 (cinit p)) -> decode st = Some rc ->
+  wf es = true -> track sid es1 = Some c1 -> c_ph c1 = PhReported st -> decode st = Some rc ->
   reg_label sid e = Some l -> In ELoop r2 ->
   In (LCall sid l rc) (calls_of sid (w_log (run es))) /\
   forall re, e = EWait sid l re ->
     exists sb j, nth_error (w_subs (run es)) sid = Some sb /\ nth_error (s_futs sb) j = Some (l, resolve re rc).
 Proof.
-  intros es W A Rp Dc Lb Lp.
+  intros es W T Rp Dc Lb Lp. unfold track in T.
+  destruct (after_spawn sid es1) as [[p r1]|] eqn:A; [|discriminate]. injection T as T.
   assert (A' : after_spawn sid es = Some (p, r1 ++ e :: r2 ++ r3)) by (apply after_spawn_app; exact A).
-  destruct (world_child es sid p _ W A') as [[[Hs _ _ Hc _] _] _].
-  set (c1 := fold_left (cstep sid) r1 (cinit p)) in *.
-  assert (I1 : Inv sid p r1 c1) by apply Inv_track.
+  destruct (world_child es sid p _ W A') as [[[Hs _ _ Hc] _] _].
+  destruct (spawn_prefix_some es1 sid p r1 A) as [Ees Fpre].
+  unfold es in Hs, Hc. rewrite Fpre in Hs, Hc. rewrite trk_app, T, trk_cons in Hs, Hc.
+  set (w0 := run (spawn_prefix sid es1)) in *.
+  assert (I1 : Inv sid p r1 c1) by (rewrite <- T; apply Inv_track).
   assert (Rb : RB sid r1 rc (c_sub c1) (c_calls c1) (c_late c1)).
-  { pose proof (i_body _ _ _ _ I1) as B. unfold body in B. unfold reported in Rp. rewrite Rp, Dc in B. exact B. }
+  { pose proof (i_body _ _ _ _ I1) as B. unfold body in B. rewrite Rp, Dc in B. exact B. }
   pose proof Rb as [Rc _].
-  (* the registration event queues callback(returncode) *)
-  assert (Hreg : exists cb, cb_label cb = l /\ pend cb rc (cstep sid c1 e) /\
+  set (h := w_init (fold_left step r1 w0)) in *.
+  assert (Hreg : exists cb, cb_label cb = l /\ pend cb rc (cstep sid h c1 e) /\
                  forall re, e = EWait sid l re -> cb = CbFut l (length (s_futs (c_sub c1))) re).
-  { destruct e as [q|q st0| |s0 l0|s0 l0 re0|]; simpl in Lb; try discriminate.
+  { destruct e as [q|q st0| |s0 l0|s0 l0 re0| | |]; simpl in Lb; try discriminate.
     - destruct (Nat.eqb s0 sid) eqn:E; [|discriminate]. injection Lb as ->. exists (CbPlain l).
       split; [reflexivity|]. split; [|intros re K; discriminate K].
       cbn [cstep]. rewrite E. unfold creg, pend. rewrite Rc. cbn [c_late]. apply in_or_app. right. left. reflexivity.
@@ -282,12 +302,85 @@ Proof.
       split; [reflexivity|]. split; [|intros re K; inversion K; subst; reflexivity].
       cbn [cstep]. rewrite E. unfold creg, pend. rewrite Rc. cbn [c_late]. apply in_or_app. right. left. reflexivity. }
   destruct Hreg as [cb [Hl [Hp Hw]]].
-  pose proof (Inv_step sid p r1 c1 e I1) as I2.
-  destruct (late_fold sid p cb rc (r2 ++ r3) (r1 ++ [e]) (cstep sid c1 e) I2 (or_introl Hp)) as [_ [_ Dn]].
+  pose proof (Inv_step sid p r1 c1 e h I1) as I2.
+  destruct (late_fold sid p cb rc (r2 ++ r3) (r1 ++ [e]) (step (fold_left step r1 w0) e) _ I2 (or_introl Hp)) as [_ [_ Dn]].
   specialize (Dn (in_or_app _ _ _ (or_introl Lp))).
-  replace (fold_left (cstep sid) (r1 ++ e :: r2 ++ r3) (cinit p))
-    with (fold_left (cstep sid) (r2 ++ r3) (cstep sid c1 e)) in Hs, Hc
-    by (unfold c1; rewrite (fold_left_app _ r1 (e :: r2 ++ r3)); reflexivity).
-  destruct Dn as [D1 D2]. rewrite Hl in D1. split; [rewrite Hc; exact D1|].
+  destruct Dn as [D1 D2]. rewrite Hl in D1. unfold es. split; [rewrite Hc; exact D1|].
   intros re K. rewrite (Hw re K) in D2. simpl in D2. eauto.
+Qed.
+
+(* ---------- the SIGCHLD handler: initialize / uninitialize ---------- *)
+Lemma run_item_init w x : w_init (run_item w x) = w_init w.
+Proof.
+  destruct x as [sid st|sid c rc]; cbn [run_item].
+  - unfold set_rc. destruct (nth_error (w_subs w) sid) as [s|]; [|reflexivity].
+    destruct (decode st) as [rc|]; [|reflexivity]. destruct (s_cb s) as [c|]; [|reflexivity].
+    destruct (invoke sid _ c rc). reflexivity.
+  - unfold late_call. destruct (nth_error (w_subs w) sid) as [s|]; [|reflexivity].
+    destruct (invoke sid s c rc). reflexivity.
+Qed.
+
+Lemma run_loop_init w : w_init (run_loop w) = w_init w.
+Proof.
+  unfold run_loop.
+  assert (H : forall q w1, w_init (fold_left run_item q w1) = w_init w1).
+  { induction q as [|x q IH]; intros w1; cbn [fold_left]; [reflexivity|]. rewrite IH. apply run_item_init. }
+  rewrite H. reflexivity.
+Qed.
+
+Lemma step_keeps_handler w e : w_init w = true -> e <> EUninit -> w_init (step w e) = true.
+Proof.
+  intros H N. destruct e as [q|q st| |s l|s l re| | |]; simpl; try exact H; try reflexivity.
+  - destruct (a_find q (w_kern w)) as [[]|]; exact H.
+  - rewrite H. unfold cleanup. rewrite fold_try_init. exact H.
+  - unfold register. destruct (nth_error (w_subs w) s) as [sb|]; [|exact H].
+    destruct (s_rc sb); [exact H|]. rewrite try_init. reflexivity.
+  - unfold register. destruct (nth_error (w_subs w) s) as [sb|]; [|exact H].
+    destruct (s_rc sb); [exact H|]. rewrite try_init. reflexivity.
+  - rewrite run_loop_init. exact H.
+  - contradiction.
+Qed.
+
+Theorem handler_stays_installed a b : w_init (run a) = true -> ~ In EUninit b -> w_init (run (a ++ b)) = true.
+Proof.
+  revert a. induction b as [|e b IH]; intros a H N; [rewrite app_nil_r; exact H|].
+  replace (a ++ e :: b) with ((a ++ [e]) ++ b) by (rewrite <- app_assoc; reflexivity).
+  apply IH.
+  - rewrite run_snoc. apply step_keeps_handler; [exact H|]. intros ->. apply N. left; reflexivity.
+  - intros K. apply N. right; exact K.
+Qed.
+
+(* set_exit_callback / wait_for_exit on an object whose exit has not been reported installs the handler; so does initialize() *)
+Theorem registration_installs_handler es e sid sb :
+  nth_error (w_subs (run es)) sid = Some sb -> s_rc sb = None ->
+  (exists l, e = EReg sid l) \/ (exists l re, e = EWait sid l re) -> w_init (run (es ++ [e])) = true.
+Proof.
+  intros Hs Rc [[l ->]|[l [re ->]]]; rewrite run_snoc; simpl; unfold register; rewrite Hs, Rc, try_init; reflexivity.
+Qed.
+
+(* without the handler (never installed, or removed by uninitialize()) a SIGCHLD changes nothing at all *)
+Theorem sigchld_ignored_without_handler es : w_init (run es) = false -> run (es ++ [ESigchld]) = run es.
+Proof. intros H. rewrite run_snoc. simpl. rewrite H. reflexivity. Qed.
+
+(* ---------- one SIGCHLD serves every registered child that has died, however many ---------- *)
+Theorem one_sigchld_serves_all es : wf es = true -> w_init (run es) = true ->
+  forall sid p r c st, after_spawn sid es = Some (p, r) -> track sid es = Some c ->
+    c_ph c = PhZombie st -> c_inw c = true ->
+    exactly_once (es ++ [ESigchld; ELoop]) sid (r ++ [ESigchld; ELoop]) st.
+Proof.
+  intros W Hd sid p r c st A T P Iw.
+  set (es' := es ++ [ESigchld; ELoop]).
+  assert (W' : wf es' = true).
+  { unfold wf, es' in *. unfold spawn_pids in *. rewrite flat_map_app. simpl. rewrite app_nil_r. exact W. }
+  assert (A' : after_spawn sid es' = Some (p, r ++ [ESigchld; ELoop])) by (apply after_spawn_app; exact A).
+  destruct (spawn_prefix_some es sid p r A) as [Ees Fpre].
+  unfold track in T. rewrite A in T. injection T as T.
+  apply (reported_world es' sid p _ st W' A').
+  unfold es'. rewrite Fpre, trk_app, T.
+  assert (Rn : fold_left step r (run (spawn_prefix sid es)) = run es).
+  { rewrite <- run_app, <- Ees. reflexivity. }
+  rewrite Rn, !trk_cons, Hd. unfold trk. cbn [fold_left snd cstep andb]. rewrite Iw.
+  unfold reported.
+  assert (Q : c_ph (ctry c) = PhQueued st) by (unfold ctry; rewrite P, Iw; reflexivity).
+  pose proof (cloop_phase sid (ctry c)) as K. rewrite Q in K. exact K.
 Qed.
